@@ -268,3 +268,21 @@ Proof.
   - exists X. auto.
 Qed.
 End Fill.
+
+(* sums with indicators *)
+Lemma rsum_ind_lt f k n : (k <= n)%nat -> rsum (fun c => if Nat.ltb c k then f c else 0) n = rsum f k.
+Proof.
+  intros H. rewrite (rsum_extend _ k n); auto.
+  - apply rsum_ext. intros i Hi. destruct (Nat.ltb_spec i k); [reflexivity|lia].
+  - intros i Hi. destruct (Nat.ltb_spec i k); [lia|reflexivity].
+Qed.
+
+Lemma rsum_ind_eq f k n : (k < n)%nat -> rsum (fun c => if Nat.eqb c k then f c else 0) n = f k.
+Proof.
+  intros H. rewrite (rsum_single _ k n); auto.
+  - now rewrite Nat.eqb_refl.
+  - intros i Hi N. destruct (Nat.eqb_spec i k); [contradiction|reflexivity].
+Qed.
+
+Lemma isum_0 f k : isum f 0 k = rsum f k.
+Proof. unfold isum. apply rsum_ext. intros. reflexivity. Qed.
